@@ -122,7 +122,9 @@ pub fn eval(case: &J) -> Outcome {
         Ok(Ok(r)) => r, Ok(Err(_)) => { out.tag("compile=err"); out.tag("trivial"); return out; }
         Err((loc, msg)) => { out.tag("compile=panic");
             // the cast of a text column whose declared values are not numerals: named by its cause, whatever the rest of the query looks like
-            let sh = if msg.contains("ParseIntError") || msg.contains("ParseFloatError") { "text-cast".to_string() } else { sh.clone() };
+            let sh = if msg.contains("ParseIntError") || msg.contains("ParseFloatError") { "text-cast".to_string() }
+                     // a function of a column whose range the WHERE clause has emptied (z is the point 0 and the query asks for z > exp(h) = 1): the recorded defect, named by its cause
+                     else if compile_panic_cause(&sql, &loc, &msg) == Some("function-of-empty-range") && sql.contains(" WHERE ") { "function-of-empty-range".to_string() } else { sh.clone() };
             out.fail(&format!("C18/total/compile-panic/{}/{sh}", site(&loc, &msg)), format!("{sql}: {msg} ({loc})")); return out; } };
     out.tag("compile=ok");
     if let Err((loc, msg)) = guarded(|| { let _ = rel.schema().to_string(); let _ = rel.size().to_string(); let _ = rel.data_type().to_string(); }) { out.fail(&format!("C18/total/schema-panic/{}/{sh}", site(&loc, &msg)), format!("{sql}: {msg}")); }
